@@ -739,10 +739,29 @@ func TestPropRouting(t *testing.T) {
 		}
 		// unilateral data must have reached the handlers, in order. FETCH
 		// handlers run in their own goroutines, so compare them as a multiset.
-		time.Sleep(time.Millisecond)
-		mu.Lock()
-		got := append([]string(nil), r.gotLog...)
-		mu.Unlock()
+		// (the client starts them with "go handler(msg)": wait for as many
+		// FETCH entries as the transcript holds, a fixed sleep is schedule-dependent)
+		nWantFetch := 0
+		for _, w := range r.m.handlerLog {
+			if strings.HasPrefix(w, "fetch:") {
+				nWantFetch++
+			}
+		}
+		var got []string
+		for deadline := time.Now().Add(5 * time.Second); ; time.Sleep(200 * time.Microsecond) {
+			mu.Lock()
+			got = append([]string(nil), r.gotLog...)
+			mu.Unlock()
+			n := 0
+			for _, g := range got {
+				if strings.HasPrefix(g, "fetch:") {
+					n++
+				}
+			}
+			if n >= nWantFetch || time.Now().After(deadline) {
+				break
+			}
+		}
 		var gotOrdered, wantOrdered, gotFetch, wantFetch []string
 		for _, g := range got {
 			if strings.HasPrefix(g, "fetch:") {
